@@ -18,6 +18,7 @@ def run(chk):
     ]
     ok = chk.check_theorems()
     rc.run_runner_check(chk, "C02", "proj_C02", OPTS, theorems_ok=ok)
+    rc.slow_record_part(chk, ("C02",), OPTS)
     if ok:
         import source_tie
         source_tie.runner_ties(chk)
